@@ -151,6 +151,9 @@ pub struct ExpVertex {
     pub color: [f32; 4],
     pub bone_weight: Option<[f32; 4]>,
     pub bone_id: Option<[u8; 4]>,
+    /// a second UV element (usage index 1) is declared: which set it belongs to is not pinned, so the first pair
+    /// is not asserted - but the second pair of the preceding four-component element must survive it
+    pub uv0_open: bool,
 }
 
 #[derive(Clone, Debug)]
@@ -188,7 +191,7 @@ fn tangent_xyz(b: u8) -> f32 {
 
 /// Independent decode of one vertex from the raw stream bytes.
 pub fn decode_vertex(m: &MeshSpec, k: usize) -> ExpVertex {
-    let mut v = ExpVertex { position: [0.0; 3], uv0: [0.0; 2], uv1: [0.0; 2], normal: [0.0; 3], bitangent: [0.0; 4], color: [0.0; 4], bone_weight: Some([0.0; 4]), bone_id: Some([0; 4]) };
+    let mut v = ExpVertex { position: [0.0; 3], uv0: [0.0; 2], uv1: [0.0; 2], normal: [0.0; 3], bitangent: [0.0; 4], color: [0.0; 4], bone_weight: Some([0.0; 4]), bone_id: Some([0; 4]), uv0_open: false };
     for e in &m.elements {
         let s = &m.streams[e.stream as usize];
         let at = m.strides[e.stream as usize] as usize * k + e.offset as usize;
@@ -213,6 +216,7 @@ pub fn decode_vertex(m: &MeshSpec, k: usize) -> ExpVertex {
                 v.uv0 = [rd_f32(s, at), rd_f32(s, at + 4)];
                 v.uv1 = [rd_f32(s, at + 8), rd_f32(s, at + 12)];
             }
+            (U_UV, T_HALF2) if e.usage_index > 0 => v.uv0_open = true,
             (U_UV, T_HALF2) => v.uv0 = [rd_half(s, at), rd_half(s, at + 2)],
             (U_TANGENT, _) => {}
             (U_BITANGENT, T_BYTEFLOAT4) => v.bitangent = [tangent_xyz(s[at]), tangent_xyz(s[at + 1]), tangent_xyz(s[at + 2]), if s[at + 3] == 255 { 1.0 } else { -1.0 }],
